@@ -370,6 +370,29 @@ def eventsR (rd : Reading) (ls : List Line) : List Ev := (runR rd ls).core.out
 
 def run (ls : List Line) : BState := runR {} ls
 
+/-! ## documents that do not start at line 1, documents with gaps in the numbering -/
+/-- the state before the first line of a document whose first line is numbered `start + 1`. -/
+def BState.initAt (start : Nat) : BState := ⟨start, Core.initAt start⟩
+
+def runFromR (rd : Reading) (start : Nat) (ls : List Line) : BState :=
+  finish (ls.foldl (step rd) (BState.initAt start))
+
+/-- the block event stream when the first line is numbered `start + 1` (`eventsR rd = eventsFromR rd 0`). -/
+def eventsFromR (rd : Reading) (start : Nat) (ls : List Line) : List Ev := (runFromR rd start ls).core.out
+
+/-- one explicitly numbered line.  Numbers are expected to increase strictly; a number that does not
+    exceed the previous one is read as "previous + 1" (the effective number is `max p.1 (s.n + 1)`). -/
+def stepNum (rd : Reading) (s : BState) (p : Nat × Line) : BState :=
+  let d := p.1 - (s.n + 1)
+  ⟨s.n + d + 1, stepLine rd (s.core.skip d).nextLine p.2⟩
+
+def runNumR (rd : Reading) (start : Nat) (nls : List (Nat × Line)) : BState :=
+  finish (nls.foldl (stepNum rd) (BState.initAt start))
+
+/-- the block event stream of explicitly numbered lines (all numbers `> start`, strictly increasing):
+    what the parser produces when some physical lines (pragmas, front matter) are withheld from it. -/
+def eventsNumR (rd : Reading) (start : Nat) (nls : List (Nat × Line)) : List Ev := (runNumR rd start nls).core.out
+
 /-- the block event stream of a document given as lines (default reading: the appendix's strategy). -/
 def events (ls : List Line) : List Ev := eventsR {} ls
 
